@@ -52,6 +52,22 @@ Lemma ex_self_runs :
   sts (cycles ex_self 4 ex_self_s0) = [0; 1; 4] /\ total (cycles ex_self 4 ex_self_s0) = 4%nat.
 Proof. vm_compute. auto. Qed.
 
+(* the enable really is 1 before the first edge and 0 before the second (hypotheses of enabled_same / gated_holds) *)
+Lemma ex_self_enable_values :
+  enabled (vals ex_self_s0) ex_gate = true /\ enabled (vals (cycles ex_self 1 ex_self_s0)) ex_gate = false.
+Proof. vm_compute. auto. Qed.
+
+(* another driver table around the same gated domain: the free counter now gated by wire 1, listed first *)
+Definition ex_other_table : list driver := [ {| d_enable := Some 1%nat; d_leaves := [2%nat] |}; ex_gate ].
+Lemma ex_other_table_ok :
+  registered_once (with_drivers ex_self ex_other_table) /\
+  ex_other_table = [ {| d_enable := Some 1%nat; d_leaves := [2%nat] |} ] ++ ex_gate :: [] /\
+  only_from (with_drivers ex_self ex_other_table) ex_gate 0%nat /\ only_from (with_drivers ex_self ex_other_table) ex_gate 1%nat.
+Proof.
+  split; [apply registered_once_b_spec; vm_compute; reflexivity|]. split; [reflexivity|].
+  split; intros k Hk Hw; cbn in Hk; destruct Hk as [<-|[<-|[<-|[]]]]; cbn in Hw |- *; intuition congruence.
+Qed.
+
 (* a hierarchy: top has driver 7; child A has its own driver 9 with a clockable leaf two levels below; child B has none *)
 Definition ex_tree : htree nat :=
   HNode (Some 7%nat) false
